@@ -172,8 +172,8 @@ int32_t psSignHashRsa(psPool_t *pool,
     else
     {
         *out = sig;
-        *outLen = sigLen;
     }
+    *outLen = sigLen;
 
     return PS_SUCCESS;
 }
